@@ -58,7 +58,10 @@ type Source struct {
 	NReads  int
 	MaxReq  int
 	idx     int
-	ZeroNil int // number of (0, nil) results returned (never, by construction)
+	ZeroNil int    // number of (0, nil) results returned (never, by construction)
+	Rich    bool   // present as RichSource
+	Pre     []byte // foreign bytes before the call position (rich only)
+	Extra   int    // calls of methods other than Read
 }
 
 func NewSource(data []byte, cut int, fail error, s Sched) *Source {
@@ -127,6 +130,138 @@ func (s *Source) Read(p []byte) (int, error) {
 	return n, nil
 }
 
+// RichSource is the same instrumented source presented the way *bytes.Reader and *os.File
+// present themselves: besides io.Reader it offers Seek, ReadAt, WriteTo, ReadByte/UnreadByte,
+// Len and Size, and it may be positioned after Pre bytes that are not part of the input (an
+// image embedded in a larger stream).  "The original source" (C07) is what it yields from its
+// position at the time of the call: offsets in Source stay relative to that position, and a
+// loader that rewinds or re-reads through one of the extra methods gets exactly what such a
+// source would give it.
+type RichSource struct {
+	*Source
+	Pre []byte
+}
+
+func (r RichSource) Read(p []byte) (int, error) {
+	if r.Pos < 0 {
+		n := copy(p, r.Pre[len(r.Pre)+r.Pos:])
+		r.Pos += n
+		r.NReads++
+		return n, nil
+	}
+	return r.Source.Read(p)
+}
+
+func (r RichSource) Seek(off int64, whence int) (int64, error) {
+	r.Extra++
+	base := int64(len(r.Pre))
+	var abs int64
+	switch whence {
+	case io.SeekStart:
+		abs = off
+	case io.SeekCurrent:
+		abs = base + int64(r.Pos) + off
+	case io.SeekEnd:
+		abs = base + int64(r.Cut) + off
+	default:
+		return 0, errors.New("verif: bad whence")
+	}
+	if abs < 0 {
+		return 0, errors.New("verif: negative position")
+	}
+	r.Pos = int(abs - base)
+	return abs, nil
+}
+
+func (r RichSource) ReadAt(p []byte, off int64) (int, error) {
+	r.Extra++
+	n := 0
+	for ; n < len(p); n++ {
+		i := int(off) + n - len(r.Pre)
+		switch {
+		case i < 0:
+			p[n] = r.Pre[len(r.Pre)+i]
+		case i < r.Cut:
+			p[n] = r.at(i)
+		default:
+			return n, r.Fail
+		}
+	}
+	return n, nil
+}
+
+func (r RichSource) WriteTo(w io.Writer) (int64, error) {
+	r.Extra++
+	var total int64
+	buf := make([]byte, 4096)
+	for {
+		n, err := r.Read(buf)
+		if n > 0 {
+			m, werr := w.Write(buf[:n])
+			total += int64(m)
+			if werr != nil {
+				return total, werr
+			}
+		}
+		if err == io.EOF {
+			return total, nil
+		}
+		if err != nil {
+			return total, err
+		}
+	}
+}
+
+func (r RichSource) ReadByte() (byte, error) {
+	var b [1]byte
+	for {
+		n, err := r.Read(b[:])
+		if n == 1 {
+			return b[0], nil // (an error delivered with the byte is met again on the next call)
+		}
+		if err != nil {
+			return 0, err
+		}
+	}
+}
+
+func (r RichSource) UnreadByte() error {
+	r.Extra++
+	if r.Pos+len(r.Pre) <= 0 {
+		return errors.New("verif: at beginning")
+	}
+	r.Pos--
+	return nil
+}
+
+func (r RichSource) Len() int {
+	if r.Pos >= r.Cut {
+		return 0
+	}
+	return r.Cut - r.Pos
+}
+func (r RichSource) Size() int64 { return int64(len(r.Pre) + r.Cut) }
+
+// Reader is the value handed to the loader: the plain source, or its rich presentation.
+func (s *Source) Reader() io.Reader {
+	if s.Rich {
+		return RichSource{s, s.Pre}
+	}
+	return s
+}
+
+// WithShape selects the presentation: "plain", "rich0" (rich, at offset 0), "rich5" (rich,
+// positioned after five foreign bytes).
+func (s *Source) WithShape(shape string) *Source {
+	switch shape {
+	case "rich0":
+		s.Rich = true
+	case "rich5":
+		s.Rich, s.Pre = true, []byte{0x89, 'P', 'N', 'G', 0xff}
+	}
+	return s
+}
+
 // Obs is the abstract observation of one Load call (+ optional drain).
 type Obs struct {
 	Loader    string `json:"loader"`
@@ -158,8 +293,8 @@ type Obs struct {
 	md         *meta.Data
 }
 
-func (o *Obs) ICCData() []byte   { return o.iccData }
-func (o *Obs) MD() *meta.Data    { return o.md }
+func (o *Obs) ICCData() []byte { return o.iccData }
+func (o *Obs) MD() *meta.Data  { return o.md }
 func hashBytes(b []byte) string {
 	h := fnv.New64a()
 	h.Write(b)
@@ -210,7 +345,7 @@ func Run(loader string, src *Source, drain bool, measure bool) (o Obs) {
 				o.Panic = fmt.Sprint(r)
 			}
 		}()
-		md, stream, err = fn(src)
+		md, stream, err = fn(src.Reader())
 	}()
 	o.WallNs = time.Since(t0).Nanoseconds()
 	if measure {
